@@ -243,7 +243,8 @@ class TimingAnalysis(object):
 
         """
         cp_length = self.max_length()
-        scale_factor = 130.0 / tech_in_nm
+        # Dennard scaling: gate delay shrinks with the feature size (timings are calibrated at 130nm)
+        scale_factor = tech_in_nm / 130.0
         if ffoverhead is None:
             clock_period_in_ps = scale_factor * (cp_length + 189 + 194)
         else:
